@@ -268,6 +268,40 @@ ClosureProg(d, rd, wr, route, twice, pad, shadow) ==
                     PV(1, CallE(Id("sorted"), <<ListE(<<I(3), I(1)>>),
                                  FuncE("", <<Param("x"), Param("y")>>, <<ES(call("g")), ES(Bin("<", Id("x"), Id("y")))>>)>>)),
                     PV(2, call("g")), ES(Id("v1"))>>
+\* ---------- closures over block-scoped variables, multi-assignment to captured variables (C02) ----------
+\* mk declares one variable in each of two or three sibling blocks of its body and lets a closure over it escape;
+\* the closures are called after mk has returned, in both orders: each must see its own variable
+AppendCps == <<97, 112, 112, 101, 110, 100>>
+BlockKinds == {"if", "range", "switch"}
+InBlock(kind, body) == CASE kind = "if" -> ES(IfE(Bl(TRUE), body))
+                         [] kind = "range" -> [k |-> "range", style |-> "range", vars |-> <<"i">>, c |-> I(1), body |-> body]
+                         [] kind = "switch" -> ES(SwitchE(I(1), <<Case(<<I(1)>>, body)>>))
+Clo(v, write) == FuncE("", <<>>, IF write THEN <<AssignS(v, "+=", I(10)), ES(Id(v))>> ELSE <<ES(Id(v))>>)
+Escape(v, init, write) == <<VarS(v, I(init)), ES(CallE(AttrE(Id("fs"), "append", AppendCps), <<Clo(v, write)>>))>>
+FsCall(k) == CallE([k |-> "idx", a |-> Id("fs"), b |-> I(k)], <<>>)
+BlockClosureProg(k1, k2, k3, w1, w2, three, order) ==
+  LET body == <<VarS("fs", ListE(<<>>)), InBlock(k1, Escape("x", 1, w1)), InBlock(k2, Escape("y", 2, w2))>>
+              \o (IF three THEN <<InBlock(k3, Escape("z", 3, FALSE))>> ELSE <<>>) \o <<Ret(Id("fs"))>>
+      n == IF three THEN 3 ELSE 2
+      calls == IF order = 0 THEN [j \in 1..n |-> FsCall(j - 1)] ELSE [j \in 1..n |-> FsCall(n - j)]
+  IN <<VarS("mk", FuncE("", <<>>, body)), VarS("fs", CallE(Id("mk"), <<>>)),
+       PV(1, ListE(calls)), PV(2, ListE(calls)), ES(FsCall(0))>>
+BlockClosures(u) == {BlockClosureProg(k1, k2, k3, w1, w2, three, order) :
+                       k1 \in BlockKinds, k2 \in BlockKinds, k3 \in {"if", "range"}, w1 \in BOOLEAN, w2 \in BOOLEAN,
+                       three \in BOOLEAN, order \in {0, 1}}
+\* a closure assigns two of the three variables it captured with ONE multi-assignment; the third one, read first or
+\* last, shifts the positions of the captured variables among the closure's cells
+MultiAssignProg(p, q, first) ==
+  LET names == <<"a", "b", "c">>
+      third == CHOOSE n \in {"a", "b", "c"}: n # names[p] /\ n # names[q]
+      assign == [k |-> "multivar", ns |-> <<names[p], names[q]>>, decl |-> FALSE,
+                 e |-> ListE(<<Bin("+", Id(names[q]), I(10)), Bin("+", Id(names[p]), I(20))>>)]
+      inner == (IF first THEN <<PV(5, Id(third))>> ELSE <<>>) \o <<assign>> \o
+               (IF first THEN <<>> ELSE <<PV(5, Id(third))>>) \o <<Ret(ListE(<<Id("a"), Id("b"), Id("c")>>))>>
+  IN <<VarS("mk", FuncE("", <<>>, <<VarS("a", I(1)), VarS("b", I(2)), VarS("c", I(3)), Ret(FuncE("", <<>>, inner))>>)),
+       VarS("g", CallE(Id("mk"), <<>>)), PV(1, CallE(Id("g"), <<>>)), PV(2, CallE(Id("g"), <<>>)), ES(CallE(Id("g"), <<>>))>>
+MultiAssigns(u) == {MultiAssignProg(p, q, first) : p \in 1..3, q \in 1..3, first \in BOOLEAN} \ {MultiAssignProg(p, p, f) : p \in 1..3, f \in BOOLEAN}
+
 \* only well-scoped scenarios: the innermost function of a chain of depth d can see v_1 .. v_d
 Closures(maxd) == UNION {{ClosureProg(d, rd, wr, route, twice, ps[1], ps[2]) :
                             rd \in 1..d, wr \in 1..d, route \in Routes, twice \in BOOLEAN,
